@@ -13,16 +13,19 @@ VERIF = os.path.dirname(os.path.dirname(os.path.dirname(os.path.abspath(__file__
 # (property, name, file, old, new)
 MUTANTS = [
     ("C01", "insert-overlap-lt", "signal_layout.go", "\t\tif endBit <= tmpStartBit {\n\t\t\tbreak", "\t\tif endBit < tmpStartBit {\n\t\t\tbreak"),
-    ("C01", "insert-end-bound-ge", "signal_layout.go", "\tif endBit > sl.size {\n\t\treturn &SignalSizeError{\n\t\t\tSize: sigSize,\n\t\t\tErr:  ErrNoSpaceLeft,", "\tif endBit >= sl.size {\n\t\treturn &SignalSizeError{\n\t\t\tSize: sigSize,\n\t\t\tErr:  ErrNoSpaceLeft,"),
+    ("C01", "insert-end-bound-ge", "signal_layout.go", "\tif startBit > sl.size-sigSize {", "\tif startBit >= sl.size-sigSize {"),
     ("C01", "insert-continue-gt", "signal_layout.go", "\t\tif startBit >= tmpEndBit {\n\t\t\tcontinue", "\t\tif startBit > tmpEndBit {\n\t\t\tcontinue"),
     ("C01", "compact-skips-last", "signal_layout.go", "\tlastStartBit := 0\n\tfor _, sig := range sl.signals {", "\tlastStartBit := 0\n\tfor _, sig := range sl.signals[:max(len(sl.signals)-1, 0)] {"),
-    ("C01", "shift-right-clamp-off-by-one", "signal_layout.go", "\t\t\t\ttargetStartBit = sl.size - tmpSig.GetSize()\n", "\t\t\t\ttargetStartBit = sl.size - tmpSig.GetSize() - 1\n"),
+    ("C01", "shift-right-clamp-off-by-one", "signal_layout.go", "\t\t\tmaxShift := sl.size - tmpEndBit\n", "\t\t\tmaxShift := sl.size - tmpEndBit - 1\n"),
     ("C01", "grow-skips-last-follower", "signal_layout.go", "\tfor i := nextSigIdx; i < len(sl.signals); i++ {", "\tfor i := nextSigIdx; i < len(sl.signals)-1; i++ {"),
     ("C01", "grow-verify-ge", "signal_layout.go", "\tif amount > availableSpace {", "\tif amount >= availableSpace {"),
     ("C01", "append-verify-ge", "signal_layout.go", "\tif sigSize > trailingSpace {", "\tif sigSize >= trailingSpace {"),
     ("C01", "addvalue-no-push", "signal_enum.go", "\t\tif err := se.modifySize(se.sizeFromMaxIndex(index) - se.GetSize()); err != nil {", "\t\tif err := se.modifySize(0); err != nil {"),
     ("C01", "resize-verify-ge", "signal_layout.go", "\tif lastSig.GetRelativeStartPos()+lastSig.GetSize() > newSize {", "\tif lastSig.GetRelativeStartPos()+lastSig.GetSize() >= newSize {"),
     ("C01", "shrink-pulls-one-less", "signal_layout.go", "\t\t\ttmpSig.setRelativeStartPos(tmpSig.GetRelativeStartPos() - amount)", "\t\t\ttmpSig.setRelativeStartPos(tmpSig.GetRelativeStartPos() - amount + 1)"),
+    ("C01", "bus-check-after-layout-resize", "message.go", "\tif m.hasSenderNodeInt() {\n\t\tif err := m.senderNodeInt.verifyMessageSize(newSizeByte); err != nil {\n\t\t\treturn err\n\t\t}\n\t}\n\n\tif err := m.signalLayout.resize(newSizeByte * 8); err != nil {\n\t\treturn m.errorf(err)\n\t}\n", "\tif err := m.signalLayout.resize(newSizeByte * 8); err != nil {\n\t\treturn m.errorf(err)\n\t}\n\n\tif m.hasSenderNodeInt() {\n\t\tif err := m.senderNodeInt.verifyMessageSize(newSizeByte); err != nil {\n\t\t\treturn err\n\t\t}\n\t}\n"),
+    ("C07", "rename-skips-mux-table", "signal.go", "\tif canUpdMuxSig {\n\t\ts.parentMuxSig.signalNames.remove(oldName)", "\tif canUpdMuxSig && !s.hasParentMsg() {\n\t\ts.parentMuxSig.signalNames.remove(oldName)"),
+    ("C07", "rename-skips-message-table-for-multiplexed", "signal.go", "\tif s.hasParentMsg() {\n\t\tif err := s.parentMsg.verifySignalName(newName); err != nil {\n\t\t\treturn s.errorf(&UpdateNameError{Err: err})\n\t\t}\n\n\t\ts.parentMsg.signalNames.remove(oldName)", "\tif s.hasParentMsg() {\n\t\tif err := s.parentMsg.verifySignalName(newName); err != nil {\n\t\t\treturn s.errorf(&UpdateNameError{Err: err})\n\t\t}\n\t}\n\tif s.hasParentMsg() && !canUpdMuxSig {\n\t\ts.parentMsg.signalNames.remove(oldName)"),
     ("C07", "group-id-bound-gt", "mux_signal.go", "\tif groupID >= ms.groupCount {", "\tif groupID > ms.groupCount {"),
     ("C07", "fixed-insert-misses-last-group", "mux_signal.go", "\t\tfor i := 0; i < ms.groupCount; i++ {\n\t\t\tms.groups[i].insert(signal, startBit)", "\t\tfor i := 0; i < ms.groupCount-1; i++ {\n\t\t\tms.groups[i].insert(signal, startBit)"),
     ("C07", "clear-group-drops-two-group-signal", "mux_signal.go", "\t\tif len(groupIDs) == 1 {\n\t\t\tms.removeSignal(sig)", "\t\tif len(groupIDs) <= 2 {\n\t\t\tms.removeSignal(sig)"),
@@ -72,4 +75,7 @@ def main():
         print("%-4s %-45s %-12s %s" % r)
 
 
+ONLY = os.environ.get('MUT_ONLY')
+if ONLY:
+    MUTANTS = [m for m in MUTANTS if any(o in m[1] for o in ONLY.split(','))]
 main()
